@@ -6,7 +6,22 @@ import checklib
 def regen(ctx):
     tv = ["kvstore/typedvalue.go:TypedValue." + m for m in ("Get", "Has", "Compute", "Set", "Delete")]
     ts = ["kvstore/typedstore.go:TypedStore." + m for m in ("Get", "Has", "Set", "Delete", "Iterate")]
-    return checklib.regen_skeletons(ctx, tv + ts, extra_methods=["Get", "Set", "Delete", "Has", "Iterate"])
+    fails = checklib.regen_skeletons(ctx, tv + ts, extra_methods=["Get", "Set", "Delete", "Has", "Iterate"]) or []
+    return fails + regen_code(ctx)
+
+
+def regen_code(ctx):
+    """Regenerate Hive/Gen/C06_Code.lean: the method bodies of TypedValue translated to the statement language of
+    Hive/Model/TypedCode.lean (harness/c06/xlate).  Hive/Proofs/TypedCode.lean re-proves `translated code = model`."""
+    out = os.path.join(checklib.LEAN, "Hive", "Gen", "C06_Code.lean")
+    src = os.path.join(ctx.repo, "kvstore", "typedvalue.go")
+    tmp = os.path.join(ctx.scratch, "C06_Code.lean")
+    rc, log = checklib.sh(["go", "run", "./c06/xlate", src, tmp], cwd=checklib.HARNESS, timeout=600)
+    if rc != 0 or not os.path.exists(tmp):
+        return [{"kind": "translator", "detail": "harness/c06/xlate failed (kvstore/typedvalue.go outside the supported subset, "
+                 "or a pointer fact the model relies on no longer holds):\n" + checklib.tail(log, 20)}]
+    checklib.write_gen(ctx, out, open(tmp).read())
+    return []
 
 
 SPEC = {
@@ -22,7 +37,8 @@ SPEC = {
                  "C06_serialised", "C06_serialised_coherent", "C06_serialised_readers", "C06_serialised_counter",
                  "C06_skeleton_get", "C06_skeleton_has", "C06_skeleton_compute", "C06_skeleton_set", "C06_skeleton_delete",
                  "C06_skeleton_store_get", "C06_skeleton_store_has", "C06_skeleton_store_set", "C06_skeleton_store_delete",
-                 "C06_skeleton_store_iterate"],
+                 "C06_skeleton_store_iterate",
+                 "C06_code_refines_model", "C06_code_coherent_failure_atomic"],
     "trusted_base": ["hand-written models Hive/Model/TypedValue.lean, TypedStore.lean, TypedConc.lean of kvstore/typedvalue.go and typedstore.go, "
                      "tied by differential execution with fault injection (harness/c06)",
                      "Go toolchain, compiled Lean driver, Go's sync.RWMutex semantics as written in Hive/Model/TypedConc.lean"],
